@@ -851,7 +851,7 @@ class NUnique(SingleAggregation):
 
     @functools.cached_property
     def aggregate_kwargs(self) -> dict:  # type: ignore[override]
-        return {"levels": self.levels, "name": self._slice}
+        return {"levels": self.levels, "name": self._slice, "sort": self.sort}
 
     @functools.cached_property
     def combine_kwargs(self):
